@@ -359,10 +359,116 @@ pub fn coherence(threads: usize, ops: u64, nkeys: u8, seed: u64, cap: Option<u64
     Outcome { evaluations: checked, nontrivial: cross_thread_hits, classes, sample: params, violation }
 }
 
+// ---- C07: invalidate_all beside writers and readers (real clock) -------------------------
+
+pub fn invalidation_race(invalidators: usize, writers: usize, readers: usize, rounds: u64, nkeys: u64) -> Outcome {
+    use std::time::Instant;
+    let cache: Cache<u64, u64> = Cache::builder().build();
+    let clk = Arc::new(AtomicU64::new(1));
+    let done = Arc::new(AtomicBool::new(false));
+    let barrier = Arc::new(Barrier::new(invalidators + writers + readers));
+    // invalidate_all events: (instant just before the call, logical end)
+    let mut ihs = Vec::new();
+    for _ in 0..invalidators {
+        let (c, k, b) = (cache.clone(), Arc::clone(&clk), Arc::clone(&barrier));
+        ihs.push(std::thread::spawn(move || {
+            b.wait();
+            let mut ev = Vec::with_capacity(rounds as usize);
+            for _ in 0..rounds {
+                let t_s = Instant::now();
+                c.invalidate_all();
+                let le = k.fetch_add(1, Ordering::SeqCst);
+                ev.push((t_s, le));
+                std::hint::spin_loop();
+            }
+            ev
+        }));
+    }
+    // inserts: value -> instant just after the call returned
+    let mut whs = Vec::new();
+    for w in 0..writers {
+        let (c, b, d) = (cache.clone(), Arc::clone(&barrier), Arc::clone(&done));
+        whs.push(std::thread::spawn(move || {
+            b.wait();
+            let mut ev: Vec<(u64, Instant)> = Vec::new();
+            let mut n = 0u64;
+            while !d.load(Ordering::Acquire) {
+                n += 1;
+                let v = ((w as u64 + 1) << 40) | n;
+                c.insert(n % nkeys, v);
+                ev.push((v, Instant::now()));
+                if n % 64 == 0 {
+                    use mini_moka::sync::ConcurrentCacheExt;
+                    c.sync();
+                }
+            }
+            ev
+        }));
+    }
+    let mut rhs = Vec::new();
+    for _ in 0..readers {
+        let (c, k, b, d) = (cache.clone(), Arc::clone(&clk), Arc::clone(&barrier), Arc::clone(&done));
+        rhs.push(std::thread::spawn(move || {
+            b.wait();
+            let mut ev: Vec<(u64, u64)> = Vec::new();
+            let mut i = 0u64;
+            while !d.load(Ordering::Acquire) {
+                i += 1;
+                let ls = k.fetch_add(1, Ordering::SeqCst);
+                if let Some(v) = c.get(&(i % nkeys)) {
+                    ev.push((ls, v));
+                }
+            }
+            ev
+        }));
+    }
+    let mut ias: Vec<(std::time::Instant, u64)> = Vec::new();
+    for h in ihs {
+        ias.extend(h.join().expect("invalidator"));
+    }
+    done.store(true, Ordering::Release);
+    let mut ins: HashMap<u64, std::time::Instant> = HashMap::new();
+    for h in whs {
+        for (v, t) in h.join().expect("writer") {
+            ins.insert(v, t);
+        }
+    }
+    let mut gets: Vec<(u64, u64)> = Vec::new();
+    for h in rhs {
+        gets.extend(h.join().expect("reader"));
+    }
+    // for a get that began at logical time ls: the latest call instant among the
+    // invalidate_all calls that had completed before (logical end < ls)
+    ias.sort_by_key(|x| x.1);
+    let mut prefix_max: Vec<std::time::Instant> = Vec::with_capacity(ias.len());
+    for (i, x) in ias.iter().enumerate() {
+        prefix_max.push(if i == 0 { x.0 } else { prefix_max[i - 1].max(x.0) });
+    }
+    let params = serde_json::json!({"workload": "invalidation_race", "invalidators": invalidators, "writers": writers, "readers": readers, "rounds": rounds, "keys": nkeys, "get_hits": gets.len(), "inserts": ins.len()});
+    let mut violation = None;
+    let mut decided = 0u64;
+    for (ls, v) in &gets {
+        let Some(t_ins) = ins.get(v) else { continue };
+        let idx = ias.partition_point(|x| x.1 < *ls);
+        if idx == 0 {
+            continue;
+        }
+        decided += 1;
+        if prefix_max[idx - 1] > *t_ins {
+            violation = Some(viol("C07", format!("a get that began after an invalidate_all had returned showed a value whose insert had returned before that invalidate_all was called (value {v:#x}); the insert preceded the call by {:?}", prefix_max[idx - 1].duration_since(*t_ins)), params.clone()));
+            break;
+        }
+    }
+    let mut classes = BTreeMap::new();
+    classes.insert("get_hits_after_a_completed_invalidate_all".to_string(), decided);
+    Outcome { evaluations: gets.len() as u64, nontrivial: decided, classes, sample: params, violation }
+}
+
 // ---- worker ---------------------------------------------------------------------------
 
 pub const RULE_C04: &str = "real threads inserting distinct fresh unit-weight keys without sync while a monitor thread counts the residents at moments when no insert call is in progress (a gate makes the count atomic); every count must stay <= max_capacity + 384 (the write queue); evaluations = samples taken; non-trivial = samples that observed more than max_capacity resident entries (a real overshoot)";
 pub const RULE_C16: &str = "k writer threads overwrite a fixed key set with increasing per-writer sequence numbers while m threads run full iterations; every pass must yield each key exactly once and never an older value of the same writer than an earlier pass; evaluations = passes; non-trivial = passes during which >= 1 key changed its value";
+pub const RULE_C07: &str = "real threads: invalidators call invalidate_all in a loop, writers overwrite a small key set (syncing now and then), readers get; real clock; a get that began (logical counter) after an invalidate_all had returned must not show a value whose insert had returned (wall-clock instant) before that invalidate_all was called; evaluations = successful gets; non-trivial = successful gets that began after at least one completed invalidate_all";
 pub const RULE_C02: &str = "4-16 real threads issue seeded get/insert/invalidate/sync on 1-4 keys; logical timestamps from a shared atomic counter bracket every call; same history oracle as the schedule engine; evaluations = successful gets checked; non-trivial = gets that returned a value written by another thread";
 
 pub fn stress_worker(a: &WorkerArgs) -> WorkerResult {
@@ -405,6 +511,12 @@ pub fn stress_worker(a: &WorkerArgs) -> WorkerResult {
                 add(o, &mut res, 3);
             }
         }
+        "C07" => {
+            let plans: [(usize, usize, usize, u64); 4] = [(2, 1, 2, 3), (2, 2, 2, 1), (3, 1, 1, 8), (2, 2, 3, 2)];
+            let (iv, wr, rd, nk) = plans[a.idx as usize % 4];
+            let o = invalidation_race(iv, wr, rd, 30_000 * scale, nk);
+            add(o, &mut res, 5);
+        }
         "C02" => {
             let plans: [(usize, u8, Option<u64>); 4] = [(4, 1, None), (8, 3, None), (16, 4, Some(2)), (6, 2, Some(1))];
             let (th, nk, cap) = plans[a.idx as usize % 4];
@@ -429,6 +541,7 @@ pub fn replay(found: &Found) -> Option<crate::exec::Violation> {
         let o = match p.get("workload").and_then(|v| v.as_str()) {
             Some("overshoot") => overshoot(g("max_capacity"), g("inserting_threads") as usize, g("inserts_per_thread")),
             Some("iterate_beside_writers") => iterate_beside_writers(g("keys"), g("writers") as usize, g("iterators") as usize, g("rounds_per_writer"), p.get("initial_capacity").and_then(|v| v.as_u64()).map(|n| n as usize), p.get("bounded").and_then(|v| v.as_bool()).unwrap_or(false)),
+            Some("invalidation_race") => invalidation_race(g("invalidators") as usize, g("writers") as usize, g("readers") as usize, g("rounds"), g("keys")),
             Some("coherence") => coherence(g("threads") as usize, g("ops_per_thread"), g("keys") as u8, g("seed"), p.get("max_capacity").and_then(|v| v.as_u64())),
             _ => return None,
         };
@@ -437,5 +550,5 @@ pub fn replay(found: &Found) -> Option<crate::exec::Violation> {
             break;
         }
     }
-    worst.map(|f| crate::exec::Violation { prop: if found.property == "C04" { "C04" } else if found.property == "C16" { "C16" } else { "C02" }, step: 0, msg: f.message })
+    worst.map(|f| crate::exec::Violation { prop: if found.property == "C04" { "C04" } else if found.property == "C16" { "C16" } else if found.property == "C07" { "C07" } else { "C02" }, step: 0, msg: f.message })
 }
